@@ -146,6 +146,15 @@ def build_inputs(rng, tier):
             # contents are other worlds as often as the fixed domain
             noise.append(world_case(rng, rng.choice(["single", "joint"])))
         inputs.append(dict(main, kind="after-noise:" + main["kind"], noise=noise, main=main, same_paths=(k % 2 == 0)))
+    # observe - mutate - observe (wave 3): the triplet list -- the exporter's own, or one made from the components of the
+    # Observation parsed from its file -- is exported and parsed back, then one of its states is changed in place through
+    # the public attributes and the SAME list is exported and parsed back again, 2-4 times
+    for k in range(max(8, n // 6)):
+        main = [lambda: world_case(rng, "single"), lambda: world_case(rng, "joint"),
+                lambda: dom14_case(rng, rng.choice(["single", "joint"]), repeats=False)][k % 3]()
+        via = "observation" if k % 2 else "triplets"
+        inputs.append(dict(main, kind="omo:%s:%s" % (via, main["kind"]), main=main,
+                           omo={"muts": rng.randint(2, 4), "mut_seed": rng.randint(0, 10 ** 9), "via": via}))
     # the empty plan
     e = dom14_case(rng, "single", repeats=False)
     e.update(kind="empty-plan", plan=[])
@@ -156,6 +165,8 @@ def build_inputs(rng, tier):
 
 
 def job_of(inp):
+    if "omo" in inp:
+        return dict(inp["omo"], op="c10.omo", main=job_of(inp["main"]))
     if "noise" in inp:
         return {"op": "c10.after_noise", "noise": [job_of(n) for n in inp["noise"]], "main": job_of(inp["main"]),
                 "same_paths": bool(inp.get("same_paths"))}
@@ -383,8 +394,8 @@ def run(args):
     # inputs with repeated-argument fluents (the D07 area) never share a process with ordinary inputs, and every
     # after-noise sequence is one job in a process of its own; a replay in a fresh process is the same experiment.
     from ..common import NCPU
-    seq = [i for i, x in enumerate(inputs) if "noise" in x]
-    apart = [i for i, x in enumerate(inputs) if "noise" not in x and (x["kind"].endswith("-repeats") or x["kind"].startswith("witness"))]
+    seq = [i for i, x in enumerate(inputs) if "noise" in x or "omo" in x]
+    apart = [i for i, x in enumerate(inputs) if "noise" not in x and "omo" not in x and (x["kind"].endswith("-repeats") or x["kind"].startswith("witness"))]
     plain = [i for i in range(len(inputs)) if i not in seq and i not in apart]
     results = [None] * len(inputs)
     for idxs in (plain, apart):
@@ -394,6 +405,25 @@ def run(args):
         batch = seq[a:a + NCPU]
         for i, r in zip(batch, run_impl([job_of(inputs[i]) for i in batch], hashseed=hashseed, nproc=len(batch))):
             results[i] = r
+    # an observe-mutate-observe job is judged moment by moment: each moment is an ordinary case (dump, export, parse back)
+    omo_stats = {"jobs": 0, "moments": 0, "mutations": {}, "via": {}, "states_played_by_two_objects": 0, "mutation_raised": 0}
+    inputs2, results2 = [], []
+    for inp, r in zip(inputs, results):
+        if "omo" in inp and "moments" in r:
+            omo_stats["jobs"] += 1
+            omo_stats["via"][inp["omo"]["via"]] = omo_stats["via"].get(inp["omo"]["via"], 0) + 1
+            for ap in r["applied"]:
+                omo_stats["mutations"][ap["mut"]["kind"]] = omo_stats["mutations"].get(ap["mut"]["kind"], 0) + 1
+                omo_stats["states_played_by_two_objects"] += 1 if ap["objects"] > 1 else 0
+                omo_stats["mutation_raised"] += sum(1 for d in ap["done"] if "value" not in d)
+            for m, mo in enumerate(r["moments"]):
+                omo_stats["moments"] += 1
+                inputs2.append(dict(inp, moment=m, applied=r["applied"][:m]))
+                results2.append(mo)
+        else:
+            inputs2.append(inp)
+            results2.append(r)
+    inputs, results = inputs2, results2
     # float facts
     vals, toks = set(), set()
     for r in results:
@@ -416,7 +446,10 @@ def run(args):
             # the driver itself failed (domain/problem did not parse, exporter raised before any triplet): not a case of the property
             stats["harness_errors"] += 1
             p = None
-            if inp["kind"] == "shipped" or inp["kind"].startswith("witness"):
+            if inp.get("moment", 0) > 0:
+                p = write_replay(PROP, "omo_failed_%d" % len(cases), {"kind": "input", "why": "after an in-place change of one of its states the trajectory could no longer be dumped / exported", "input": {"case": inp}, "result": r})
+                rep.violation(p, True)
+            elif inp["kind"] == "shipped" or inp["kind"].startswith("witness"):
                 p = write_replay(PROP, "driver_failed_%d" % len(cases), {"kind": "correspondence", "why": "the implementation driver failed on a fixture", "input": {"case": inp}, "result": r})
                 rep.violation(p, False)
             continue
@@ -477,6 +510,7 @@ def run(args):
     phases["coq_cases"] = round(time.time() - t_, 1)
     cov = rep.coverage
     cov["phase_seconds"] = phases
+    stats["observe_mutate_observe"] = omo_stats
     cov["input_distribution"] = stats
     cov["hash_seed"] = hashseed
     n_ex = sum(1 for i in inputs if i["kind"].startswith("exhaustive"))
